@@ -140,6 +140,7 @@ type Exec struct {
 	curLoop   *loopRec
 	pendingAlloc [][2]string
 	immutNames map[string]bool
+	iterGhost  map[*ssa.Range]string
 	subAddrIDs map[string]int
 	recBusy map[string]bool
 	exitHits map[string]int
@@ -1727,7 +1728,31 @@ type iterRec struct {
 	str bool
 }
 
+// visitedName: ghost set of the keys a map iteration has yielded so far.
+func (x *Exec) visitedName(i *ssa.Range) (string, *Sort, bool) {
+	mt, ok := i.X.Type().Underlying().(*types.Map)
+	if !ok {
+		return "", nil, false
+	}
+	ks := x.layout(mt.Key())
+	if len(ks) != 1 {
+		return "", nil, false
+	}
+	if x.iterGhost == nil {
+		x.iterGhost = map[*ssa.Range]string{}
+	}
+	n, ok := x.iterGhost[i]
+	if !ok {
+		n = fmt.Sprintf("G$visited$%d", len(x.iterGhost)+1)
+		x.iterGhost[i] = n
+	}
+	return n, &Sort{K: SArr, Key: ks[0], Val: sortBool}, true
+}
+
 func (x *Exec) execRange(fr *Frame, st *State, i *ssa.Range) {
+	if n, s, ok := x.visitedName(i); ok {
+		x.heapSet(st, n, s, "((as const "+s.SMT()+") false)")
+	}
 	r := x.vc.Declare("iter", sortRef)
 	if x.iters == nil {
 		x.iters = map[ssa.Value]*ssa.Range{}
@@ -1787,6 +1812,16 @@ func (x *Exec) execNext(fr *Frame, st *State, i *ssa.Next) {
 	appendSlot(vt, vval)
 	if mt != nil {
 		mv := x.val(fr, rng.X)
+		if dom, ds, _, _, ok := x.mapArrs(mt); ok && len(kval.L) == 1 {
+			if vn, vsrt, ok := x.visitedName(rng); ok {
+				// each key is yielded at most once; when the iteration ends every key of the map has been yielded
+				vis := x.heapGet(st, vn, vsrt)
+				x.assumeIn(st, implies(okv, not("(select "+vis+" "+kval.One()+")")))
+				q := fmt.Sprintf("q!k!%d", x.nextID())
+				x.assumeIn(st, implies(not(okv), "(forall (("+q+" "+vsrt.Key.SMT()+")) (! (=> (and (not (= "+mv.One()+" 0)) (select (select "+x.heapGet(st, dom, ds)+" "+mv.One()+") "+q+")) (select "+vis+" "+q+")) :pattern ((select "+vis+" "+q+"))))"))
+				x.heapSet(st, vn, vsrt, ite(okv, "(store "+vis+" "+kval.One()+" true)", vis))
+			}
+		}
 		if dom, ds, vals, vs, ok := x.mapArrs(mt); ok && len(kval.L) == 1 {
 			var facts []string
 			facts = append(facts, not(eq(mv.One(), "0")), "(select (select "+x.heapGet(st, dom, ds)+" "+mv.One()+") "+kval.One()+")")
